@@ -677,6 +677,13 @@ class MkBasis(Op):
              "sub": gen_subset(rng)}
         if g is not None:
             a["map"] = ref(g)
+        if rng.random() < 0.2:
+            # share the Dofs object of an earlier basis on the same mesh and
+            # the same element object
+            other = S.pick(rng, "basis", lambda x: x["mesh"] == m
+                           and x["elem"] == e and not x.get("composite"))
+            if other is not None:
+                a["dofs_from"] = ref(other)
         return a
 
     def meta(self, a, S):
@@ -694,19 +701,24 @@ class MkBasis(Op):
         g = W[a["map"]["ref"]] if "map" in a else None
         k = a["kind"]
         io = a["intorder"]
+        kw = {}
+        if "dofs_from" in a:
+            kw["dofs"] = W[a["dofs_from"]["ref"]].dofs
         if k == "cell":
-            return CellBasis(m, e, mapping=g, intorder=io)
+            return CellBasis(m, e, mapping=g, intorder=io, **kw)
         if k == "cell-subset":
             return CellBasis(m, e, mapping=g, intorder=io,
-                             elements=resolve_subset(m.nelements, a["sub"]))
+                             elements=resolve_subset(m.nelements, a["sub"]),
+                             **kw)
         if k == "facet":
-            return FacetBasis(m, e, mapping=g, intorder=io)
+            return FacetBasis(m, e, mapping=g, intorder=io, **kw)
         if k == "facet-subset":
             bf = m.boundary_facets()
             return FacetBasis(m, e, mapping=g, intorder=io,
-                              facets=bf[np.sort(resolve_subset(len(bf), a["sub"]))])
+                              facets=bf[np.sort(resolve_subset(len(bf), a["sub"]))],
+                              **kw)
         return InteriorFacetBasis(m, e, mapping=g, intorder=io,
-                                  side=int(k[-1]))
+                                  side=int(k[-1]), **kw)
 
 
 @register
@@ -748,6 +760,41 @@ class BasisDerive(Op):
         if a["how"] == "boundary":
             return b.boundary()
         return b.with_elements(resolve_subset(b.mesh.nelements, a["sub"]))
+
+
+@register
+class MkComposite(Op):
+    """b1 * b2 (CompositeBasis) of two bases on the same mesh with the same
+    quadrature; its lazily built tables live on the composite object, its
+    fields alias the components'."""
+    name = "mk_composite"
+    out = "basis"
+    weight = 0.8
+
+    def gen(self, rng, S):
+        b1 = S.pick(rng, "basis", lambda x: x["kind"] == "cell"
+                    and x["io"] is not None and not x.get("composite")
+                    and x["ekind"] in ("scalar", "vector"))
+        if b1 is None:
+            return None
+        m1 = S.slots[b1]
+        b2 = S.pick(rng, "basis", lambda x: x["kind"] == "cell"
+                    and x["mesh"] == m1["mesh"] and x["io"] == m1["io"]
+                    and not x.get("composite")
+                    and x["ekind"] in ("scalar", "vector"))
+        if b2 is None:
+            return None
+        return {"b1": ref(b1), "b2": ref(b2),
+                "equal": False}
+
+    def meta(self, a, S):
+        bm = dict(S.slots[a["b1"]["ref"]])
+        bm.pop("type")
+        bm.update(ekind="composite", composite=True, ename="composite")
+        return bm
+
+    def apply(self, W, a):
+        return W[a["b1"]["ref"]] * W[a["b2"]["ref"]]
 
 
 BASIS_OBS = ["basis", "dx", "doflocs", "element_dofs", "global_coordinates",
@@ -957,7 +1004,9 @@ class MkForm(Op):
 
     def gen(self, rng, S):
         typ = rng.choice(["bilinear", "bilinear", "linear", "functional"])
-        names = {"bilinear": sorted(R.BILINEAR), "linear": sorted(R.LINEAR),
+        names = {"bilinear": sorted(R.BILINEAR) + ["model:laplace",
+                                                   "model:mass"],
+                 "linear": sorted(R.LINEAR) + ["model:unit_load"],
                  "functional": sorted(R.FUNCTIONAL)}[typ]
         return {"typ": typ, "name": rng.choice(names),
                 "decor": rng.choice(["ctor", "ctor", "partial"]),
@@ -969,6 +1018,11 @@ class MkForm(Op):
 
     def apply(self, W, a):
         from skfem import BilinearForm, LinearForm, Functional
+        if a["name"].startswith("model:"):
+            # the module-level form objects of skfem.models: one object
+            # shared by every user in the interpreter
+            from skfem.models import poisson
+            return getattr(poisson, a["name"][6:])
         table = {"bilinear": (R.BILINEAR, BilinearForm),
                  "linear": (R.LINEAR, LinearForm),
                  "functional": (R.FUNCTIONAL, Functional)}[a["typ"]]
